@@ -27,6 +27,8 @@ Lemma nonfinal_gen_ok st : nonfinal_gen st = negb (final st).
 Proof. destruct st; vm_compute; reflexivity. Qed.
 Lemma completing_gen_final st : completing_gen st = true -> final st = true.
 Proof. destruct st; vm_compute; intros H; try reflexivity; discriminate H. Qed.
+Lemma lostwait_gen_ok : sco_full_queue_loses_wait = false.
+Proof. vm_compute. reflexivity. Qed.
 Lemma keeps_gen_ok : consumer_keeps_early_parts = true.
 Proof. vm_compute. reflexivity. Qed.
 
@@ -40,7 +42,7 @@ Theorem C09_ids_increasing : forall es s,
   let ids := resp_ids (snd (prun_gen s es)) in
   ids = zseq (p_next s + 1) (count_reqs es) /\ StronglySorted Z.lt ids /\ NoDup ids.
 Proof.
-  intros es s ids. unfold ids, prun_gen.
+  intros es s ids. unfold ids, prun_gen. rewrite lostwait_gen_ok.
   rewrite (proj1 (prun_ids sco_queue_cap dresp_gen direct_raise_resp es s)).
   split; [reflexivity|]. split; [apply zseq_sorted|apply zseq_nodup].
 Qed.
@@ -141,6 +143,25 @@ Proof.
 Qed.
 Print Assumptions C09_every_transaction_completes.
 
+(* every Wait is followed by exactly one final state: for arbitrary bursts of requests (more than the
+   queue holds, any mix of operations, direct and unknown ones in between) and arbitrary worker
+   progress, once the worker has drained, every transaction whose response said Wait has reported
+   exactly Wait, Start and one final state.  A request that found the queue full was refused without
+   any state (C09_refused_only_when_full) -- it is never answered Wait and then forgotten. *)
+Theorem C09_wait_ends_in_one_final : forall es n mv,
+  reqs_ok es ->
+  let es' := es ++ drain (S sco_queue_cap) in
+  let s := fst (prun_gen (pinit n mv) es') in
+  let o := snd (prun_gen (pinit n mv) es') in
+  forall id r i, In (id, r) (p_hist s) -> resp_of id o = [Some i] -> i_st i = Wait ->
+  exists f, final f = true /\ part_states (parts_of id o) = [Wait; Start; f].
+Proof.
+  intros es n mv Hok es' s o id r i Hin Hr Hw.
+  destruct (C09_every_transaction_completes es n mv Hok) as [_ H].
+  specialize (H id r i Hin Hr). rewrite Hw in H. now apply tx_legal_wait.
+Qed.
+Print Assumptions C09_wait_ends_in_one_final.
+
 (* ---------------------------------------------------------------- consumer *)
 
 (* The result handle completes exactly once.  From every manager state in which transaction [id] is
@@ -239,6 +260,25 @@ Theorem C09_unlocked_buffer_refuted :
   done_of 1 (u_c s) = [] /\ aget 1 (c_pend (u_c s)) = Some (Wait, []) /\ c_recent (u_c s) = [mkCP 1 Fin 0].
 Proof. vm_compute. auto. Qed.
 Print Assumptions C09_unlocked_buffer_refuted.
+
+(* why "a full queue refuses" is part of gen_ok: an enqueue that swallows queue.Full answers Wait and
+   forgets the operation -- a burst of sco_queue_cap + 1 queued requests while the worker is busy, then
+   the worker drains: the last transaction was answered Wait and nothing is ever reported for it *)
+Theorem C09_lost_wait_refuted :
+  let r := mkReq true false (Returns Fin) 0 0 in
+  let es := repeat (EvReq r) (S sco_queue_cap) ++ drain (S sco_queue_cap) in
+  let last := Z.of_nat (S sco_queue_cap) in
+  reqs_ok es /\
+  quiescent (fst (prun_lostwait (pinit 0 0) es)) = true /\
+  resp_of last (snd (prun_lostwait (pinit 0 0) es)) = [Some (mkInfo last Wait ENone false)] /\
+  parts_of last (snd (prun_lostwait (pinit 0 0) es)) = [].
+Proof.
+  split; [|vm_compute; auto].
+  apply Forall_app. split.
+  - apply Forall_forall. intros e He. apply repeat_spec in He. subst e. reflexivity.
+  - generalize (S sco_queue_cap). induction n; simpl; repeat constructor; auto.
+Qed.
+Print Assumptions C09_lost_wait_refuted.
 
 Example C09_nonvacuous :
   (* queued processing, raising handler, a second consumer's direct request in between *)
